@@ -21,6 +21,7 @@ def run_config(ctx, config):
                  lambda val: ("val", ("/", A, B)) if val(same) else ("val", S.R(("/", ("*", A, sa), ("*", B, sb)))))
     amt = ws.amount_type(config)
     n = 0
+    G.unit_identity(ctx, config, w)
     for q in w.qtypes:
         if q.kind != "ref":
             continue
